@@ -135,7 +135,8 @@ def handle (req : Json) : Except String Json := do
   let prop := (getStr case "prop").toOption.getD "C03"
   let fuel := 1000000
   -- top-level statements, each under the harness's try/except, world observed after each
-  let w0 : World := { vals := vals, regs := regs, batch := false, trigger := false, events := [], queued := [] }
+  let w0 : World := { vals := vals, regs := regs, batch := false, trigger := false, events := [], queued := [],
+                      slotKeys := regs.flatMap (fun wt => if wt.what = 0 then [] else wt.params.map (fun p => (p, wt.what))) }
   let (_, revSteps, revRuns) := prog.foldl (fun (acc : World × List Json × List (World × Res × World × List Item)) s =>
       let (w, l, rs) := acc
       let (r, w', o) := run cfg fuel (.stmt s) w
